@@ -25,7 +25,8 @@
      <<"NOTDOM", tid, i>>       the generator left the domain (machinery failure)
      <<"OUTDOM", tid, i>>       compressx: float arithmetic does not decide the search for the decimals the
                                 way decimal arithmetic does (Dom_SciDecisive); the event is skipped, counted
-     <<"DDIFF", tid, i>>        diagnostic: compress() chose another number of decimals than the model
+     <<"DDIFF", tid, i>>        diagnostic: compress() chose another number of decimals than the model (or some
+                                where the model finds none)
      <<"NOTCAND", tid, i>>      diagnostic: compress() chose a chain outside the twelve candidates *)
 EXTENDS BcifEncoding, Json, IOUtils
 
@@ -67,8 +68,8 @@ JudgeCompressX(e, i) ==
   IF ~(Dom_SciArray(e.A) /\ Dom_SciTol(e.A.t, e.T)) THEN PrintT(<<"NOTDOM", tid, i>>)
   ELSE IF ~Dom_SciDecisive(e.A, e.T) THEN PrintT(<<"OUTDOM", tid, i>>)
   ELSE LET t == e.A.t
-           hang == SciHang(e.A, e.T)
-           d == IF hang THEN 0 ELSE SciDecimals(e.A, e.T)
+           nodec == SciExhausted(e.A, e.T)     \* no decimals reach the tolerance: the array is kept losslessly
+           d == IF nodec THEN 0 ELSE SciDecimals(e.A, e.T)
            shape == e.oc = "ok" /\ Len(e.B.v) = Len(e.A.v) /\ e.B.t = t
            good(j) == AcceptSci(t, e.T, e.A.v[j], e.B.v[j])
            values == shape /\ \A j \in DOMAIN e.A.v : good(j)
@@ -80,7 +81,7 @@ JudgeCompressX(e, i) ==
                  \cup (IF KB_SciFloat32Range(e.A, e.T) /\ shape /\ e.hasFP /\ e.d = d /\ e.packed = "ok"
                           /\ \A j \in DOMAIN e.A.v : good(j) \/ SciZone(t, e.A.v[j], d)
                        THEN {"CompressFloat32RangeCheck"} ELSE {})
-       IN /\ (IF e.oc = "ok" /\ e.hasFP /\ ~hang /\ e.d # d THEN PrintT(<<"DDIFF", tid, i>>) ELSE TRUE)
+       IN /\ (IF e.oc = "ok" /\ e.hasFP /\ (nodec \/ e.d # d) THEN PrintT(<<"DDIFF", tid, i>>) ELSE TRUE)
           /\ IF ok THEN TRUE
              ELSE PrintT(<<"MISMATCH", tid, i, IF kb # {} THEN "known" ELSE "unknown", kb, "ok">>)
 
